@@ -145,7 +145,9 @@ impl<'a> VxSplitChar<'a> {
 }
 #[verifier::external_body]
 pub fn vx_split_char<'a>(s: &'a str, c: char) -> (r: VxSplitChar<'a>)
-    ensures r@ == split_char(s@, c), r@.len() >= 1
+    ensures r@ == split_char(s@, c), r@.len() >= 1,
+        // at most one piece per byte of the str plus one, and a str has at most isize::MAX bytes
+        r@.len() <= usize::MAX
 { unimplemented!() }
 
 /// `Option::map_or_else(default, f)` (body verified)
